@@ -15,7 +15,7 @@ from ..absint import Config, Interp
 from ..bits import field_bits
 from ..harness import rule
 from ..index import AnalysisError
-from ..models import LEN_MAX, explore_recv, frame_dims, frame_stubs, recv_config, mk_websocket
+from ..models import LEN_MAX, explore_recv, frame_dims, frame_stubs, recv_config, mk_websocket, mk_frame_buffer
 from ..rulekit import dim_of, isym, new_list, new_obj, path_text
 from ..values import C, FALSE, INF, NONE, TRUE, App, Ref, Sym, Tup, Value
 
@@ -186,19 +186,17 @@ def r2(ctx):
         sizes = [e.args[0] for e in reads]
         b2 = _hdr_byte(o, 0)
         lb = App("&", (b2, C(0x7F)), "int")
-        # find the term the code tested for 126 / 127: any term over byte2 with an eq fact
-        enc = None
-        for k, fact in o.run.facts.items():
-            if fact.eq is not None and isinstance(fact.eq, C) and fact.eq.v in (126, 127) and k[0] == "A" and "byte" in repr(k) and "&" in repr(k):
-                enc = fact.eq.v
+        # the class the path *treats* the frame as is read off what it asks the transport for after the two header bytes:
+        # 2 more bytes (16-bit extension), 8 more (64-bit extension) or neither -- however the code came to that decision
         masked = dim_of(o.run, f.get("mask_value"), (0, 1))
         seq = [repr(s) for s in sizes]
         exp = [C(2)]
         kind = "7bit"
-        if enc == 126:
+        ext = sizes[1] if len(sizes) > 2 else None
+        if ext == C(2):
             exp.append(C(2))
             kind = "16bit"
-        elif enc == 127:
+        elif ext == C(8):
             exp.append(C(8))
             kind = "64bit"
         if masked.lo == masked.hi == 1:
@@ -259,7 +257,7 @@ def r5(ctx):
 
     def body(run):
         # two chunks are already buffered (an earlier call was interrupted after two transport reads)
-        fb = new_obj(run, "_abnf:frame_buffer", "fb", recv=Sym("recv_fn", "func"), recv_buffer=new_list(run, [Sym("held", "bytes"), Sym("held2", "bytes")]))
+        fb = mk_frame_buffer(I, run, [Sym("held", "bytes"), Sym("held2", "bytes")])
         n = isym(run, "n", 0, LEN_MAX)
         return I.call(run, I.getattr(run, fb, "recv_strict", None), [n], {}, None)
 
@@ -353,10 +351,9 @@ def r6(ctx):
     I = Interp(idx, recv_config())
 
     def body(run):
-        fb = new_obj(run, "_abnf:frame_buffer", "fb")
-        names = ("fin", "rsv1", "rsv2", "rsv3", "opcode", "has_mask", "length_bits")
+        fb = mk_frame_buffer(I, run)
         I.call(run, I.getattr(run, fb, "recv_header", None), [], {}, None)
-        hdr = run.cell(fb).fields.get("header")
+        hdr = I.getattr(run, fb, "header", None)
         return Tup((hdr, I.call(run, I.getattr(run, fb, "has_mask", None), [], {}, None)))
 
     outs = ctx.count_paths(I.explore(body))
@@ -380,10 +377,10 @@ def r6(ctx):
         ctx.ob(f"_abnf:frame_buffer.has_mask:reads-mask-bit:{i}", ok, f"has_mask() = {hm!r}", loc)
     # recv_length reads the length bits of the stored header
     def body2(run):
-        fb = new_obj(run, "_abnf:frame_buffer", "fb")
+        fb = mk_frame_buffer(I, run)
         I.call(run, I.getattr(run, fb, "recv_header", None), [], {}, None)
         I.call(run, I.getattr(run, fb, "recv_length", None), [], {}, None)
-        return run.cell(fb).fields.get("length")
+        return I.getattr(run, fb, "length", None)
 
     outs2 = ctx.count_paths(I.explore(body2))
     okk = 0
